@@ -35,6 +35,13 @@ ROOT = Path(__file__).resolve().parent.parent
 EVIDENCE_DIR = ROOT / "evidence"
 REPLAY_DIR = ROOT / "replays"
 KNOWN_FINDINGS = ROOT / "known_findings.json"
+if os.environ.get("VERIF_REPO"):
+    # mutation testing against a scratch tree: never touch the committed evidence / replays, which must come from /repo itself
+    import tempfile
+
+    _MUT = Path(tempfile.gettempdir()) / "verif-mutation-runs"
+    EVIDENCE_DIR = _MUT / "evidence"
+    REPLAY_DIR = _MUT / "replays"
 
 os.environ.setdefault("PYTHONHASHSEED", "0")
 os.environ.setdefault("OMP_NUM_THREADS", "1")
@@ -275,7 +282,7 @@ def run_check(prop_id: str, tier: str, seed: int, jobs: int | None = None) -> in
 
     rc = 0
     lines: list[str] = []
-    REPLAY_DIR.mkdir(exist_ok=True)
+    REPLAY_DIR.mkdir(parents=True, exist_ok=True)
     violations.sort(key=lambda v: v[0])
     reported_sigs: set[str] = set()
     known_hit: dict[str, int] = {}
@@ -353,7 +360,7 @@ def run_check(prop_id: str, tier: str, seed: int, jobs: int | None = None) -> in
         "wall_s": round(wall, 2),
         "violations": new_violations,
     }
-    EVIDENCE_DIR.mkdir(exist_ok=True)
+    EVIDENCE_DIR.mkdir(parents=True, exist_ok=True)
     (EVIDENCE_DIR / f"{prop_id}.json").write_text(json.dumps(evidence, indent=1, default=str))
 
     for l in lines:
